@@ -1,25 +1,107 @@
-(* Semantics of the leaf core components, as the list of offending values per
-   focus node (None = a result without sh:value). Mirrors the evaluate()
-   methods of pyshacl/constraints/core/{value,cardinality,other}_constraints.py. *)
-From Coq Require Import List NArith ZArith Bool.
+(* Semantics of the leaf core components, as the list of offending values per focus node
+   (None = a result without sh:value). Mirrors the evaluate() methods of
+   pyshacl/constraints/core/{value,cardinality,value_range,string_based,property_pair,other}_constraints.py
+   and pyshacl/rdfutil/compare.py compare_literal. *)
+From Coq Require Import List NArith ZArith QArith Bool.
 From Verif Require Import Base.SetList Base.Terms Base.Vocab Paths.Path Shapes.AST.
 Import ListNotations.
 
-(* rdflib Graph.transitive_objects(t, rdfs:subClassOf): reflexive-transitive closure *)
+(* ---------------- literal values (computed by rdflib from the lexical form: trusted) ---------------- *)
+Inductive special := SPInf | SNInf | SNaN.
+Inductive lkind :=
+| KNone                               (* ill-typed, or a datatype without an orderable Python value *)
+| KNum (q:Q)                          (* int / Decimal / finite float, exactly *)
+| KSpecial (s:special)                (* float inf, -inf, nan *)
+| KBool (b:bool)
+| KStr (cls:N) (cps:list N)           (* str value; cls = class of (language, non-xsd:string datatype), 0 = simple/xsd:string *)
+| KDateTime (aware:bool) (micros:Z)   (* aware: UTC microseconds; naive: wall-clock microseconds *)
+| KDate (days:Z).
+
+(* per-literal facts the datatype component needs *)
+Record dinfo := { d_datatype : option term;   (* datatype IRI; None for simple and language-tagged literals *)
+                  d_has_lang : bool;
+                  d_ill_typed : bool;          (* rdflib ill_typed is True *)
+                  d_pytype_ok : bool }.        (* the Python value has the type pySHACL expects for the datatype *)
+
+Record world := {
+  w_kind : list (term * lkind);
+  w_dinfo : list (term * dinfo);
+  w_len : list (term * Z);             (* length of the string form of IRIs and literals *)
+  w_regex : list (N * term * bool);    (* (pattern, value node) -> re.search found a match *)
+  w_lang : list (term * list N)        (* subtags of the literal's language tag *)
+}.
+Definition empty_world : world := {| w_kind := []; w_dinfo := []; w_len := []; w_regex := []; w_lang := [] |}.
+
+Fixpoint assoc {B} (l:list (term * B)) (t:term) : option B :=
+  match l with [] => None | (k, v) :: r => if term_eqb k t then Some v else assoc r t end.
+
+Definition kind_of (W:world) (t:term) : lkind := match assoc (w_kind W) t with Some k => k | None => KNone end.
+Definition len_of (W:world) (t:term) : Z := match assoc (w_len W) t with Some n => n | None => 0%Z end.
+Definition lang_of (W:world) (t:term) : list N := match assoc (w_lang W) t with Some l => l | None => [] end.
+Definition regex_of (W:world) (p:N) (t:term) : bool :=
+  existsb (fun e => N.eqb (fst (fst e)) p && term_eqb (snd (fst e)) t && snd e) (w_regex W).
+
+(* ---------------- compare_literal ---------------- *)
+Fixpoint cps_compare (a b:list N) : comparison :=
+  match a, b with
+  | [], [] => Eq | [], _ => Lt | _, [] => Gt
+  | x :: a', y :: b' => match N.compare x y with Eq => cps_compare a' b' | c => c end
+  end.
+
+Definition special_compare (a b:special) : option comparison :=
+  match a, b with
+  | SNaN, _ | _, SNaN => None
+  | SPInf, SPInf | SNInf, SNInf => Some Eq
+  | SPInf, _ => Some Gt | SNInf, _ => Some Lt
+  end.
+
+(* None = TypeError (the two literals cannot be ordered) *)
+Definition lcompare (a b:lkind) : option comparison :=
+  match a, b with
+  | KNum p, KNum q => Some (Qcompare p q)
+  | KNum _, KSpecial SPInf => Some Lt | KNum _, KSpecial SNInf => Some Gt
+  | KSpecial SPInf, KNum _ => Some Gt | KSpecial SNInf, KNum _ => Some Lt
+  | KSpecial s, KSpecial t => special_compare s t
+  | KBool x, KBool y => Some (match x, y with false, true => Lt | true, false => Gt | _, _ => Eq end)
+  | KStr c1 s1, KStr c2 s2 => if N.eqb c1 c2 then Some (cps_compare s1 s2) else None
+  | KDateTime a1 m1, KDateTime a2 m2 => if Bool.eqb a1 a2 then Some (Z.compare m1 m2) else None
+  | KDate d1, KDate d2 => Some (Z.compare d1 d2)
+  | _, _ => None
+  end.
+
+Inductive rangeop := MinExcl | MinIncl | MaxExcl | MaxIncl.
+(* the value v passes the bound b *)
+Definition range_ok (W:world) (op:rangeop) (b v:term) : bool :=
+  if negb (is_lit v) then false else
+  match lcompare (kind_of W v) (kind_of W b) with
+  | None => false
+  | Some c => match op, c with
+              | MinExcl, Gt => true | MinIncl, (Gt | Eq) => true
+              | MaxExcl, Lt => true | MaxIncl, (Lt | Eq) => true
+              | _, _ => false
+              end
+  end.
+
+(* _in_sparql_order of property_pair_constraints.py; IRIs are outside SPARQL's order: an oracle decides *)
+Definition in_order (W:world) (allow_equal:bool) (v c:term) : bool :=
+  match v, c with
+  | LIT _ _ _, LIT _ _ _ =>
+      match lcompare (kind_of W v) (kind_of W c) with
+      | Some Lt => true | Some Eq => allow_equal | _ => false
+      end
+  | IRI _, IRI _ =>   (* string order of the two IRIs, via the same oracle as literals *)
+      match lcompare (kind_of W v) (kind_of W c) with
+      | Some Lt => true | Some Eq => allow_equal | _ => false
+      end
+  | _, _ => false
+  end.
+
+(* ---------------- the components ---------------- *)
 Definition superclasses (g:graph) (t:term) : list term :=
-  match eval_path (fuel_for g) g (PStar (PPred rdfs_subClassOf)) false 0 t with
-  | Ok l => l
-  | Err _ => []
-  end.
-
-(* rdflib Graph.transitive_subjects(rdfs:subClassOf, c) *)
+  match eval_path (fuel_for g) g (PStar (PPred rdfs_subClassOf)) false 0 t with Ok l => l | Err _ => [] end.
 Definition subclasses (g:graph) (c:term) : list term :=
-  match eval_path (fuel_for g) g (PStar (PPred rdfs_subClassOf)) true 0 c with
-  | Ok l => l
-  | Err _ => []
-  end.
+  match eval_path (fuel_for g) g (PStar (PPred rdfs_subClassOf)) true 0 c with Ok l => l | Err _ => [] end.
 
-(* ClassConstraintComponent._evaluate_class_rules_rdflib *)
 Definition has_class (g:graph) (v c:term) : bool :=
   if is_lit v then false
   else existsb (fun t => term_eqb t c || tmem c (superclasses g t)) (objects g v t_rdf_type).
@@ -31,12 +113,69 @@ Definition nodekind_matches (k:nodekind) (v:term) : bool :=
   | IRI _ => match k with NKIRI | NKIRIOrLiteral | NKBlankNodeOrIRI => true | _ => false end
   end.
 
+Definition t_xsd_string := IRI xsd_string.
+Definition t_rdf_langString := IRI rdf_langString.
+
+(* DatatypeConstraintComponent.evaluate (without the rdfs:Literal / rdfs:Datatype extensions, see known findings) *)
+Definition datatype_matches (W:world) (rule v:term) : bool :=
+  if negb (is_lit v) then false else
+  match assoc (w_dinfo W) v with
+  | None => false
+  | Some d =>
+    match d_datatype d with
+    | Some dt => term_eqb dt rule && negb (d_ill_typed d) && d_pytype_ok d
+    | None =>
+      if d_has_lang d then term_eqb rule t_rdf_langString && d_pytype_ok d
+      else term_eqb rule t_xsd_string && d_pytype_ok d
+    end
+  end.
+
+Fixpoint prefixes {A} (l:list A) : list (list A) :=   (* non-empty prefixes *)
+  match l with [] => [] | x :: r => [x] :: map (cons x) (prefixes r) end.
+
+Definition list_N_eqb (a b:list N) : bool := match cps_compare a b with Eq => true | _ => false end.
+Definition WILDCARD : list N := [1%N].   (* the range "*" *)
+
+Definition language_in (W:world) (ranges:list (list N)) (v:term) : bool :=
+  match lang_of W v with
+  | [] => false
+  | tag => existsb (list_N_eqb WILDCARD) ranges
+           || existsb (fun p => existsb (list_N_eqb p) ranges) (prefixes tag)
+  end.
+
+Definition lit_lang (v:term) : N := match v with LIT _ _ l => l | _ => 0%N end.
+
+Fixpoint dup_langs (seen dups:list N) (vs:list term) : list N :=
+  match vs with
+  | [] => dups
+  | v :: r =>
+    let l := lit_lang v in
+    if N.eqb l 0 then dup_langs seen dups r
+    else if existsb (N.eqb l) seen
+         then dup_langs seen (if existsb (N.eqb l) dups then dups else dups ++ [l]) r
+         else dup_langs (l :: seen) dups r
+  end.
+
 Definition leaf_comp (l:leaf) : N :=
   match l with
   | LClass _ => sh_ClassConstraintComponent
+  | LDatatype _ => sh_DatatypeConstraintComponent
   | LNodeKind _ => sh_NodeKindConstraintComponent
   | LMinCount _ => sh_MinCountConstraintComponent
   | LMaxCount _ => sh_MaxCountConstraintComponent
+  | LMinExcl _ => sh_MinExclusiveConstraintComponent
+  | LMinIncl _ => sh_MinInclusiveConstraintComponent
+  | LMaxExcl _ => sh_MaxExclusiveConstraintComponent
+  | LMaxIncl _ => sh_MaxInclusiveConstraintComponent
+  | LMinLength _ => sh_MinLengthConstraintComponent
+  | LMaxLength _ => sh_MaxLengthConstraintComponent
+  | LPattern _ => sh_PatternConstraintComponent
+  | LLanguageIn _ => sh_LanguageInConstraintComponent
+  | LUniqueLang _ => sh_UniqueLangConstraintComponent
+  | LEquals _ => sh_EqualsConstraintComponent
+  | LDisjoint _ => sh_DisjointConstraintComponent
+  | LLessThan _ => sh_LessThanConstraintComponent
+  | LLessThanEq _ => sh_LessThanOrEqualsConstraintComponent
   | LHasValue _ => sh_HasValueConstraintComponent
   | LIn _ => sh_InConstraintComponent
   end.
@@ -44,13 +183,31 @@ Definition leaf_comp (l:leaf) : N :=
 Definition per_value (p:term -> bool) (vs:list term) : list (option term) :=
   map Some (filter (fun v => negb (p v)) vs).
 
-(* offending values of one focus node with value nodes vs *)
-Definition leaf_bad (g:graph) (l:leaf) (f:term) (vs:list term) : list (option term) :=
+(* offending values of one focus node f with value nodes vs *)
+Definition leaf_bad (W:world) (g:graph) (l:leaf) (f:term) (vs:list term) : list (option term) :=
   match l with
   | LClass cs => flat_map (fun c => per_value (fun v => has_class g v c) vs) cs
+  | LDatatype d => per_value (datatype_matches W d) vs
   | LNodeKind k => per_value (nodekind_matches k) vs
-  | LMinCount n => if (Z.of_nat (length vs) <? n)%Z then [None] else []
+  | LMinCount n => if (n =? 0)%Z then [] else if (Z.of_nat (length vs) <? n)%Z then [None] else []
   | LMaxCount n => if (n <? Z.of_nat (length vs))%Z then [None] else []
+  | LMinExcl bs => flat_map (fun b => per_value (range_ok W MinExcl b) vs) bs
+  | LMinIncl bs => flat_map (fun b => per_value (range_ok W MinIncl b) vs) bs
+  | LMaxExcl bs => flat_map (fun b => per_value (range_ok W MaxExcl b) vs) bs
+  | LMaxIncl bs => flat_map (fun b => per_value (range_ok W MaxIncl b) vs) bs
+  | LMinLength n => per_value (fun v => (n =? 0)%Z || (negb (is_bnode v) && (n <=? len_of W v)%Z)) vs
+  | LMaxLength n => per_value (fun v => negb (is_bnode v) && (len_of W v <=? n)%Z) vs
+  | LPattern ps => flat_map (fun p => per_value (fun v => negb (is_bnode v) && regex_of W p v) vs) ps
+  | LLanguageIn ranges => per_value (language_in W ranges) vs
+  | LUniqueLang b => if b then map (fun _ => None) (dup_langs [] [] vs) else []
+  | LEquals ps => flat_map (fun p =>
+        let cs := objects g f p in
+        map Some (filter (fun v => negb (tmem v cs)) vs) ++ map Some (filter (fun c => negb (tmem c vs)) cs)) ps
+  | LDisjoint ps => flat_map (fun p => let cs := objects g f p in map Some (filter (fun v => tmem v cs) vs)) ps
+  | LLessThan ps => flat_map (fun p =>
+        flat_map (fun v => flat_map (fun c => if in_order W false v c then [] else [Some v]) (objects g f p)) vs) ps
+  | LLessThanEq ps => flat_map (fun p =>
+        flat_map (fun v => flat_map (fun c => if in_order W true v c then [] else [Some v]) (objects g f p)) vs) ps
   | LHasValue hs => flat_map (fun h => if tmem h vs then [] else [None]) hs
   | LIn allowed => per_value (fun v => tmem v allowed) vs
   end.
